@@ -234,7 +234,7 @@ theorem tail_retry (c : Cfg) (ar aq : Nat) (s : S) (b : Base c ar aq s) (hrun : 
   · intro _ _; exact hlc
   · intro _ _ hh _; left; exact h24 hh
   · intro _ _ _; rfl
-  · intro _ _; exact ⟨hpt, fun hh => by simp [hur] at hh⟩
+  · intro _ _; exact ⟨hpt, fun hh => by simp [hur] at hh, fun hh => by simp [hurr] at hh⟩
   · intro _ _ hh; simp [hurr] at hh
   · intro _ hh; simp at hh
   · intro _ _ _; simp
